@@ -548,6 +548,13 @@ func (fc *FnCtx) doUnOp(x *ssa.UnOp) {
 	v := fc.operand(x.X)
 	switch x.Op {
 	case token.MUL: // load
+		if fc.c != nil && fc.c.IsFunction && !fc.probe && fc.inlineDepth == 0 {
+			if _, isAlloc := x.X.(*ssa.Alloc); !isAlloc {
+				if g, isGlobal := x.X.(*ssa.Global); !isGlobal || !fc.eng.immutableGlobal(g) {
+					fc.obligeAt(fc.cur, "function", "heap-read", "false", x.Pos(), "a contract marked 'function' must not read the heap")
+				}
+			}
+		}
 		fc.oblige("nil", "load", ptrNonNil(v), x.Pos(), "load through nil pointer")
 		if g, ok := x.X.(*ssa.Global); ok {
 			if val, ok := fc.loadGlobal(g); ok {
